@@ -237,6 +237,12 @@ def hdr_between(body, a, b):
 
 
 def check_S4(ctx, facts):
+    # by interpretation of the handlers (handlers_abs): whenever a handler changes the set it also bumps the keyspace change stamp
+    import handlers_abs
+    n0 = len(ctx.obs)
+    if handlers_abs.check_handlers(ctx, facts, 'C01.S4'):
+        ctx.obs[n0:] = [o for o in ctx.obs[n0:] if not o.key.startswith('purge|')]
+        return
     A = c02.anchors(facts)
     n = 0
     for body in A:
